@@ -34,6 +34,18 @@ fn cfg_of(dec: &str, thou: &str, digits: u8) -> Cfg {
     c
 }
 
+fn number_grid_for(tier: Tier) -> Vec<f64> {
+    let mut v = number_grid();
+    if tier == Tier::Thorough {
+        // every three-digit fraction below 20: every rounding boundary for up to two digits
+        for i in 1..=20_000 {
+            v.push(i as f64 / 1000.0);
+            v.push(-(i as f64) / 1000.0);
+        }
+    }
+    v
+}
+
 fn number_grid() -> Vec<f64> {
     let mut v = vec![0.0, 1.0, 0.5, 2.5, 12.345, 999.995, 1234.5, 1000000.0, 0.001, 123456789.125, 1e15, 0.045, 0.004, 0.005, 0.995, 9.995, 99.5, 999.5, 999.4999, 999999.995, 0.05, 0.15, 1.005, 2.675, 0.1, 0.3, 10.1, 9007199254740992.0];
     let mut n = 0.0;
@@ -64,12 +76,13 @@ impl Prop for C15 {
         // numbers and percentages ---------------------------------------------------------
         for (kind, atom) in [("number", "NUMBER"), ("percent", "PERCENT")] {
             let (langs, digits, sp) = (langs.clone(), digits.clone(), seps(tier));
+            let grid = number_grid_for(tier);
             f.push(Family::new(
                 kind,
                 Mode::Full,
-                &format!("[{}:x] for x in a {}-value grid (0, +-1, halves, rounding boundaries 0.005 / 0.995 / 999.5 / 999.995 / 999999.995, sub-unit values, integers of 1..13 digits, 2^53, both signs) x separator pairs {:?} x digits {:?} x every language: the printed form typed back in prints the same", atom, number_grid().len(), sp, digits),
+                &format!("[{}:x] for x in a {}-value grid (0, +-1, halves, rounding boundaries 0.005 / 0.995 / 999.5 / 999.995 / 999999.995, sub-unit values, integers of 1..13 digits, 2^53, both signs) x separator pairs {:?} x digits {:?} x every language: the printed form typed back in prints the same", atom, number_grid_for(tier).len(), sp, digits),
                 move |ch| {
-                    let x = *ch.pick(&number_grid());
+                    let x = *ch.pick(&grid);
                     let (dec, thou) = *ch.pick(&sp);
                     let d = *ch.pick(&digits);
                     let l = ch.pick(&langs).clone();
